@@ -572,6 +572,21 @@ class Interp:
         if base == "BitAnd" and unsigned:
             if ca is not None and cb is not None:
                 return Num(Lin.const(int(ca) & int(cb)))
+            for c_, other in ((ca, eb), (cb, ea)):
+                if c_ is not None:
+                    inv = rng[1] ^ int(c_)            # the bits cleared by the mask
+                    if inv >= 0 and (inv & (inv + 1)) == 0 and 0 < inv < rng[1]:
+                        # x & !(2^k - 1) = x - (x mod 2^k): rounding down to a multiple of 2^k
+                        k2 = inv + 1
+                        hx = hash_str("%r|%d" % (st.sys.reduce(other), k2)) & 0xffffffffffff
+                        rn, qn = "rm%x" % hx, "rq%x_ghostq" % hx
+                        r_, q_ = Lin.var(rn), Lin.var(qn)
+                        st.sys.add_range(r_, 0, k2 - 1)
+                        st.sys.add_ge(q_)
+                        st.sys.add_eq(other - q_.scale(k2) - r_)
+                        self.ghosts[qn] = (other, k2)
+                        self.purefun[rn] = set(other.t)
+                        return Num(other - r_)
             r = self.fresh_num(st, 0, rng[1], "and")
             for c_, other in ((ca, eb), (cb, ea)):
                 if c_ is not None:
@@ -875,7 +890,12 @@ class Interp:
                 if self.op_ty(fr, rv["a"]).get("k") == "bool":
                     c = self.as_cond(a)
                     return self.simplify_cond(st, Cond("not", c)) if c is not None else TOP
-                return self.top_num(st, self.op_ty(fr, rv["a"]))
+                ta_ = self.op_ty(fr, rv["a"])
+                rg = int_range(ta_)
+                if isinstance(a, Num) and rg is not None and rg[0] == 0:
+                    # bitwise complement of an unsigned value: max - x
+                    return Num(Lin.const(rg[1]) - a.e)
+                return self.top_num(st, ta_)
             if op == "Neg":
                 e = self.as_num(st, a, self.op_ty(fr, rv["a"]))
                 return Num(-e)
